@@ -466,6 +466,10 @@ func init() {
 								}
 								if sl.High == ssa.Value(call) && sl.X == call.Call.Args[0] {
 									okR = true
+								} else if hp, isPhi := sl.High.(*ssa.Phi); isPhi && splitIndexPhi(hp, sl.X) {
+									// `for i := bytes.Index(buf, sep); i >= 0; i = bytes.Index(buf, sep)`: the index and
+									// the buffer are loop variables, edge by edge the index of the separator in that buffer
+									okR = true
 								} else {
 									whyR = "the visitor's slice is not buffer[0:index of separator]"
 								}
@@ -1350,4 +1354,31 @@ func coderFlagAfter(c *Ctx, fn *ssa.Function, args []ssa.Value, depth int) (valu
 		}
 	}
 	return value, known
+}
+
+// splitIndexPhi: idx is a phi whose every edge is bytes.Index(b, termSeparatorSplitSlice)
+// with b the value the buffer has on that same edge (buf is the phi of the same
+// block, or one value on all edges).
+func splitIndexPhi(idx *ssa.Phi, buf ssa.Value) bool {
+	bp, _ := buf.(*ssa.Phi)
+	if bp != nil && bp.Block() != idx.Block() {
+		return false
+	}
+	for j, e := range idx.Edges {
+		call, ok := e.(*ssa.Call)
+		if !ok || call.Call.StaticCallee() == nil || funcFullName(call.Call.StaticCallee()) != "bytes.Index" {
+			return false
+		}
+		if exprSig(call.Call.Args[1], 0) != "global:termSeparatorSplitSlice" {
+			return false
+		}
+		want := buf
+		if bp != nil {
+			want = bp.Edges[j]
+		}
+		if call.Call.Args[0] != want {
+			return false
+		}
+	}
+	return len(idx.Edges) > 0
 }
